@@ -159,6 +159,22 @@ def sf_pat_q(ex, st, p):
     return p.q if isinstance(p, PyPattern) else z3.StringVal("")
 
 
+GCNT = z3.Function("gen_count", TokSeq, z3.IntSort(), z3.IntSort(), z3.IntSort(), z3.IntSort())
+
+
+def sf_gen_count(ex, st, tk, ty, a, b):
+    """number of raw tokens of type `ty` among number a .. b-1 of the stream.  Uninterpreted, defining equations instantiated at the
+    term that occurs (empty range; last element split off), like gen_cat."""
+    g = tk.fields["_tokengen"].items
+    ty, a, b = lift(ty), lift(a), lift(b)
+    c = GCNT(g, ty, a, b)
+    st.assume(z3.Implies(b <= a, c == 0))
+    st.assume(z3.Implies(b > a, c == GCNT(g, ty, a, b - 1) + z3.If(Tok.type(g[b - 1]) == ty, 1, 0)))
+    st.assume(z3.Implies(b - 1 <= a, GCNT(g, ty, a, b - 1) == 0))
+    st.assume(c >= 0)
+    return c
+
+
 def sf_prefix_of(ex, st, a, b):
     """a is a prefix of b.  When ASSUMED, the element-wise consequence is instantiated for the solver (DESIGN 3.2: spec
     functions are unfolded by the VC generator); when it is a GOAL only the primitive is used."""
@@ -339,4 +355,4 @@ def sf_node_end(ex, st, n):
 
 SPEC_FUNCS = {"lines_ok": sf_lines_ok, "node_start": sf_node_start, "node_end": sf_node_end, "node_wf": sf_node_wf, "wf_error": sf_wf_error, "tok_wf": sf_tok_wf, "toks_wf": sf_toks_wf, "lines_left": sf_lines_left, "indent_col": sf_indent_col, "indents_wf": sf_indents_wf, "is_blank_char": sf_is_blank_char, "last": sf_last, "lr_cache_ok": sf_lr_cache_ok, "cache_ok": sf_cache_ok, "cache_has": sf_cache_has, "cache_end": sf_cache_end, "cache_tree": sf_cache_tree, "em_cached": sf_em_cached, "tk_ok": sf_tk_ok, "can_peek": sf_can_peek, "layout": sf_layout, "cache_wf": sf_cache_wf, "truthy": sf_truthy, "is_none": sf_is_none, "pos_le": sf_pos_le,
               "endmarker_last": sf_endmarker_last, "endmarker_pulled": sf_endmarker_pulled, "gen_pos": sf_gen_pos,
-              "gen_len": sf_gen_len, "gen_cat": sf_gen_cat, "mode_kind_of": sf_mode_kind_of, "mode_level_of": sf_mode_level_of, "pat_kind": sf_pat_kind, "same_frame": sf_same_frame, "pat_q": sf_pat_q, "gen_item": sf_gen_item, "prefix_of": sf_prefix_of, "tok_type": sf_tok_type}
+              "gen_len": sf_gen_len, "gen_cat": sf_gen_cat, "gen_count": sf_gen_count, "mode_kind_of": sf_mode_kind_of, "mode_level_of": sf_mode_level_of, "pat_kind": sf_pat_kind, "same_frame": sf_same_frame, "pat_q": sf_pat_q, "gen_item": sf_gen_item, "prefix_of": sf_prefix_of, "tok_type": sf_tok_type}
